@@ -20,7 +20,8 @@ REQUIRED_THEOREMS = ["comparison_roundtrip", "condition_roundtrip", "linear_adju
                      "populate_erased", "type_set_fold", "param_set_fold", "definition_roundtrip", "exDef_wf", "intRoundTrip",
                      "definition_roundtrip_main", "time_type_roundtrip", "mkStrEnc_ok", "readStrByteOrder_written",
                      "loadStrTail_written", "spec_fixed", "spec_dyn", "spec_lookup", "enum_entry_key", "enum_fold",
-                     "time_type_roundtrip_num", "time_type_roundtrip_nonnum", "exStrEnum_wf", "exFltEnum_wf", "exBinTime_wf"]
+                     "time_type_roundtrip_num", "time_type_roundtrip_nonnum", "exStrEnum_wf", "exFltEnum_wf", "exBinTime_wf",
+                     "inRegime_sound", "inRegime_roundtrip"]
 RULE = ("requests `cyclexml <prefix> <nsmap> <root> <tree>` (definitions loaded from independently written XML, with units, "
         "descriptions incl. empty ones, time types, every optional attribute at non-default values) and `cycleobj <ldef>` "
         "(definitions assembled from objects): write, load, write, load, write on both sides; the by-name serialisation of "
@@ -204,3 +205,32 @@ def oracle(line, out):
 
 def in_domain(line):
     return True
+
+
+def regime_coverage(lines, impl_out, run_model):
+    """How much of what this run exercised lies inside the theorem: the definitions *as the library holds them* (D1 = what
+    it loaded from the generated document or was given as objects, D2 = what it loaded back from its own output) are put
+    to the model's membership test `C09.inRegime` (proved sound: `inRegime_sound`, `inRegime_roundtrip`)."""
+    import collections
+    reqs, which = [], []
+    for ln, io in zip(lines, impl_out):
+        st = stages(io)
+        t = parse_sx(ln)
+        d1 = st.get("D1") if t[0] == "cyclexml" else sx(t[1])
+        for name, dd in (("start", d1), ("reloaded", st.get("D2"))):
+            if dd:
+                reqs.append("regime " + sx(parse_sx(dd)[0]))
+                which.append(name)
+    out = run_model(reqs) if reqs else []
+    res = {"start": collections.Counter(), "reloaded": collections.Counter()}
+    for w, o in zip(which, out):
+        res[w][o] += 1
+    return {"regime_membership": {
+        "test": "C09.inRegime on the library's own definitions (sound by C09.inRegime_sound; 'out <part>' names the first "
+                "failing conjunct and is diagnostic only)",
+        "definitions_at_start": dict(res["start"]), "definitions_after_one_cycle": dict(res["reloaded"])}}
+
+
+def extra_evidence(lines=None, model_out=None, impl_out=None):
+    from harness import core
+    return regime_coverage(lines, impl_out, core.run_model)
